@@ -37,14 +37,16 @@ ResMatch(want, got) ==
   \/ want = got
   \/ \E w \in want : w[1] = "stat" /\ w[2] = "" /\ \E g \in got : g[1] = "stat" /\ g[3] = w[3]
 
-\* Corner U7 (the statement speaks of a filespace "rooted in a directory"; FsTree's root always exists):
-\*  (a) a disk filespace that removed its own root directory (logged as rootgone) answers every call that does not
-\*      re-create the directory with a clean refusal, until some call re-creates it;
-\*  (b) a call through a child view whose base directory is gone that addresses the view's ROOT itself is refused,
-\*      possibly after re-creating the base as a directory.
+\* Corner U7 (the statements speak of a filespace "rooted in a directory"; FsTree's root always exists):
+\*  (a) a disk filespace or a child view that removed its OWN root directory (logged as rootgone with every event)
+\*      answers a call either as specified (calls that create parents re-create the directory) or with a clean
+\*      refusal, and a call that addresses the missing root itself in any way that leaves the tree unchanged,
+\*      until some call re-creates the directory;
+\*  (b) a call through a nested child view whose base directory is gone that addresses the view's ROOT itself is
+\*      refused, possibly after re-creating the base as a directory.
 TargetsViewRoot(e) == ~EvClimbs(e) /\ (Reduce(e.sp) = <<>> \/ (e.name \in TwoPath /\ Reduce(e.sq) = <<>>))
 RootlessRefusal(t, e, gone) ==
-  IF gone /\ e.base = <<>> THEN EvRefuse(t, e)
+  IF gone THEN EvRefuse(t, e)
   ELSE IF "pre" \in DOMAIN e /\ e.base # <<>> /\ e.base \notin DOMAIN t /\ TargetsViewRoot(e) /\ NoFileIn(t, Prefixes(e.base))
        THEN EvRefuse(t, e) \cup EvRefuse(MkDirs(t, Prefixes(e.base)), e)
   ELSE {}
@@ -56,6 +58,7 @@ LoggedGone(e) == IF "rootgone" \in DOMAIN e THEN e.rootgone ELSE FALSE
 \* preconditions ("pre" in the event) may, outside them, answer anything but must fail cleanly
 Allowed(t, e, obsR, obsT, gone) ==
   \/ \E o \in EvOutcomes(t, e) \cup RootlessRefusal(t, e, gone) : ResMatch(o.res, obsR) /\ o.t = obsT
+  \/ (gone /\ e.base = <<>> /\ TargetsViewRoot(e) /\ obsT = t)
   \/ /\ "pre" \in DOMAIN e
      /\ ~EvClimbs(e) /\ ~PreC(t, ViewOp(e, Reduce))
      /\ CleanChange(t, obsT, {e.base \o Reduce(e.sp)} \cup (IF e.name \in TwoPath THEN {e.base \o Reduce(e.sq)} ELSE {}))
